@@ -38,7 +38,8 @@ PROP = "C12"
 #                              *type* variable on the right-hand side is chased).
 # /repo then returns a cyclic substitution (buckets as named), or recurses without bound when it
 # meets the cycle again (`<bucket>.diverges`).  Precise input class: `known_class()` below.
-EXCLUDE = set() if os.environ.get("VERIF_C12_EXCLUDE") == "0" else {"unify.cyclic_result", "unify.cyclic_result.const"}
+# both classes were fixed in /repo (295bfd9): nothing is excluded by default any more; VERIF_C12_EXCLUDE=1 restores the carve-out
+EXCLUDE = {"unify.cyclic_result", "unify.cyclic_result.const"} if os.environ.get("VERIF_C12_EXCLUDE") == "1" else set()
 KNOWN_CLASS_BUCKET = {"occurs_via_subst": "unify.cyclic_result", "const_alias": "unify.cyclic_result.const"}
 
 # fixed probe inputs of the excluded classes (for known_findings.json "probe" / --replay)
@@ -1263,9 +1264,9 @@ def make_strategies():
             lst = params if which else args
             i = draw(I[len(lst) - 1]) if len(lst) > 1 else 0
             k = draw(I[8])
-            if k == 0:
+            if k == 4:  # (end points of an integer range are over-sampled by Hypothesis)
                 (lst.pop(i) if len(lst) > 1 and draw(I[1]) else lst.append(pick(draw, CLOSED)))
-            elif which and k <= 3:
+            elif which and k in (1, 2, 3):
                 # reuse a variable at another position (consistency of repeated variables)
                 vs = [v for v in theta_inv.values()]
                 pos = [(p, u) for p, u in _positions(lst[i]) if vs and is_const(u) == is_const(vs[0])]
